@@ -3087,9 +3087,18 @@ class Partitions(Expr):
         # ``LocBase`` expressions (``.loc`` with a slice, list or element) drop the
         # partitions outside of the selection, so output partition ``i`` is not
         # computed from input partition ``i`` and the selection can't be pushed down
+        # ``MapOverlap`` (shift, diff, ffill(limit), map_overlap, ...) needs rows of the
+        # NEIGHBOURING input partitions, which a pushed-down selection would drop
         if isinstance(self.frame, Blockwise) and not isinstance(
             self.frame,
-            (BlockwiseIO, Fused, SetIndexBlockwise, ResampleAggregation, LocBase),
+            (
+                BlockwiseIO,
+                Fused,
+                SetIndexBlockwise,
+                ResampleAggregation,
+                LocBase,
+                MapOverlap,
+            ),
         ):
             operands = [
                 (
